@@ -414,3 +414,55 @@ Example norm_resultant_ex_nonmonic :
   [/\ canonZ f, Base.omap (List.map (List.map this)) (non_monic_initial_order f) = Done (List.map (List.map this) b),
       get_mult_table b f = Done t & mt_norm t [:: 1; 2; 3]%Z = Done 34%Z].
 Proof. by split; vm_compute. Qed.
+
+(** ** the inverse different is the dual lattice of the trace form (third wave)
+
+    [mt_inv_diff t = Done (l, N)] is [get_inv_diff] up to the constructor [FracIdeal::new(l, HNF N)]: the
+    fractional ideal N / l.  [trace_form t n] (DetInvDiff.v) is the integer matrix Tr with Tr_ij = trace(w_i w_j);
+    [In_rowspanZ n v N] (MatZ.v): v is an integer combination of the rows of N; [zrv n v] reads the list v as a
+    row vector.  Nothing is assumed about the table beyond its shape (no commutativity, associativity, unit). *)
+From RNT.Refine Require Import MatZ LinAlgQc DetBridge DetInvDiff.
+From RNT.Refine Require OrderW3Dual.
+Local Open Scope ring_scope.
+
+(** [P] the scaled inverse: N is the normal form of an integer matrix Int with Int * Tr = Tr * Int = l (l > 0),
+    i.e. Int = l * Tr^-1 *)
+Theorem inv_diff_scaled_inverse (n : nat) (t : table) (l : Z) (N : seq (seq Z)) :
+  cube n t -> (0 < n)%N -> mt_inv_diff t = Done (l, N) ->
+  exists int : seq (seq Z),
+    [/\ (0 < l)%Z, shape n n int, Hnf.hnf_new int = Done N,
+        zmx n n int *m trace_form t n = l%:M & trace_form t n *m zmx n n int = l%:M].
+Proof. exact (@OrderW3Dual.inv_diff_scaled_inverse n t l N). Qed.
+
+(** [P] inv_diff_dual, matrix form: an integer vector v lies in the lattice of N iff v * Tr is divisible by l *)
+Theorem inv_diff_dual_mx (n : nat) (t : table) (l : Z) (N : seq (seq Z)) :
+  cube n t -> (0 < n)%N -> mt_inv_diff t = Done (l, N) ->
+  forall v : seq Z,
+  In_rowspanZ n v N <-> (length v = n /\ exists c : 'rV[Z]_n, zrv n v *m trace_form t n = l *: c).
+Proof. exact (@OrderW3Dual.inv_diff_dual_mx n t l N). Qed.
+
+(** [P] inv_diff_dual: N / l is the dual of the order for the trace form: an integer vector v lies in the lattice
+    of N iff for every integer vector w, [trace (mul v w)] (as returned by [MultTable::mul], [MultTable::trace]) is
+    divisible by l, i.e. trace((v / l) * w) is an integer *)
+Theorem inv_diff_dual (m : mode) (n : nat) (t : table) (l : Z) (N : seq (seq Z)) :
+  cube n t -> (0 < n)%N -> mt_inv_diff t = Done (l, N) ->
+  forall v : seq Z, size v = n ->
+  (In_rowspanZ n v N <->
+   forall w : seq Z, size w = n ->
+   exists vw tr, [/\ mt_mul m t v w = Done vw, mt_trace t vw = Done tr & Z.divide l tr]).
+Proof. exact (@OrderW3Dual.inv_diff_dual m n t l N). Qed.
+
+(** [P] the trace of a product is the bilinear form of Tr (used above; no hypothesis on the table but its shape) *)
+Theorem trace_mul_form (m : mode) (n : nat) (t : table) (v w : seq Z) : cube n t -> size v = n -> size w = n ->
+  exists vw, [/\ mt_mul m t v w = Done vw, size vw = n
+    & mt_trace t vw = Done (\sum_(i < n) \sum_(j < n) nth 0%Z v i * nth 0%Z w j * trace_form t n i j)].
+Proof. exact (@OrderW3Dual.trace_mul_form m n t v w). Qed.
+
+(** non-vacuity: Z[sqrt(-5)] (Tr = diag(2, -10), inverse different = (1/10) <5, sqrt(-5)> = (1 / (2 sqrt(-5)))), and
+    the equation order of x^3 + x + 1 (disc -31) *)
+Example inv_diff_dual_ex :
+  [/\ cube 2 [:: [:: [:: 1; 0]; [:: 0; 1]]; [:: [:: 0; 1]; [:: -5; 0]]]%Z,
+      mt_inv_diff [:: [:: [:: 1; 0]; [:: 0; 1]]; [:: [:: 0; 1]; [:: -5; 0]]]%Z = Done (10%Z, [:: [:: 5; 0]; [:: 0; 1]]%Z),
+      cube 3 t_cubic
+    & mt_inv_diff t_cubic = Done (31%Z, [:: [:: 31; 0; 0]; [:: 0; 31; 0]; [:: 11; 14; 1]]%Z)].
+Proof. by split; vm_compute. Qed.
